@@ -60,8 +60,7 @@ func verifH_C16_G4_clientsocket() {
 // serverConn.connect through a middleware) on a server world with one socket already connected.
 //
 //verif:unwind 14
-//verif:preempt.quick 1
-//verif:preempt.thorough 2
+//verif:preempt 1
 //verif:visops 140
 //verif:rand concrete
 func verifH_C16_G6_namespace() {
